@@ -225,7 +225,7 @@ def parse_postfix(c, base):
     while True:
         c.ws()
         if c.eat("->"):
-            m = NAME_RE.match(c.s, c.i)
+            m = re.compile(r"[A-Za-z_]\w*").match(c.s, c.i)
             c.i = m.end()
             base = ("field", ("deref", base), m.group(0))
         elif c.peek() == "[":
@@ -247,7 +247,7 @@ def parse_postfix(c, base):
         elif c.peek() == "." and c.s[c.i + 1:c.i + 2].isalpha() or (c.peek() == "." and c.s[c.i + 1:c.i + 2] == "_"):
             # only reached for a parenthesised base; dotted names are split by the executor
             c.i += 1
-            m = NAME_RE.match(c.s, c.i)
+            m = re.compile(r"[A-Za-z_]\w*").match(c.s, c.i)
             c.i = m.end()
             base = ("field", base, m.group(0))
         else:
